@@ -554,3 +554,8 @@ SUBS = [
     Sub('variables', check_vars, strategy=var_strategy, quick=600, thorough=30000, shards_quick=2),
     Sub('special', check_special, strategy=special_strategy, quick=800, thorough=20000, shards_quick=4),
 ]
+
+
+from vlib.reported import reported_sub  # noqa: E402
+
+SUBS.append(reported_sub('C06'))
